@@ -58,3 +58,17 @@ let () =
       let acks = List.map2 (fun l t -> { ga_len = l; ga_time = (if t = 0 then GdFast else if t = 1 then GdMid else GdSlow (z_of_int t)) }) lens times in
       String.concat "," (List.map string_of_z (gd_capacities (z_of_string mb) acks))
     | _ -> "?args")
+
+(* c12_bufevo_ms <maxbuf> <lens csv> <ms csv>: sizes, or "panic" (integer divide by zero) *)
+let () =
+  register "c12_bufevo_ms" (function [mb; lens; ms] ->
+      let zs x = if x = "-" then [] else List.map z_of_string (String.split_on_char ',' x) in
+      (match gd_capacities_ms (z_of_string mb) (List.combine (zs lens) (zs ms)) with
+       | Some cs -> String.concat "," (List.map string_of_z cs)
+       | None -> "panic")
+    | _ -> "?args");
+  register "c12_line_split" (function [line] ->
+      (match gd_line_split (z_of_int 1) (bytes_of_hex line) with
+       | GdSplitReject -> "rej" | GdSplitPanic -> "panic"
+       | GdSplitOk (t, _) -> "typ:" ^ hex_of_bytes t)
+    | _ -> "?args")
